@@ -17,7 +17,8 @@ RULE = (
     "positions, from different parent jobs, before/after a seq barrier (twin already finished), "
     "while the first still waits for limits or is mid-way through its children, failing twins, "
     "calls differing only in options (limits/executor), a let-shared expression used twice, and "
-    "opt-outs (cache_scope=NONE, prov=False). Schedules: exhaustive DFS over the harness-owned "
+    "opt-outs (cache_scope=NONE, prov=False; also an opted-out twin that finishes while the original "
+    "is in flight, followed by a third equivalent call). Schedules: exhaustive DFS over the harness-owned "
     "executor's decision points for small programs (fine interleavings, capped), Hypothesis-drawn "
     "decision lists otherwise. Oracle per execution: submissions per (task hash, args hash, context "
     "hash) <= 1 unless the call opted out; at most one Job is created per (parent job, expression "
@@ -84,7 +85,7 @@ def dup_programs(draw):
             return ["op", "add", j, ["lit", ["int", 0]]]
         return j
 
-    shape = draw(st.sampled_from(["list", "seq", "mixed", "let", "nested"]))
+    shape = draw(st.sampled_from(["list", "seq", "mixed", "let", "nested", "optout-window", "failed-twin"]))
     n = draw(st.integers(2, 4))
     items = [wrap(pick()) for _ in range(n)]
     if shape == "list":
@@ -93,6 +94,22 @@ def dup_programs(draw):
         prog = ["seq", items]
     elif shape == "mixed":
         prog = ["list", [["seq", items[:2]], ["list", items[1:]]]]
+    elif shape == "optout-window":
+        # X is in flight; an opted-out twin (prov=False / cache_scope=NONE) runs and finishes; only
+        # then a third equivalent call is created, from another parent job, while X may still run
+        x = pool[0]
+        opt = ["task", x[1], x[2], {**x[3], **draw(st.sampled_from([{"prov": False}, {"cache_scope": "NONE"}]))}]
+        third = ["task", x[1], x[2], {**x[3], **draw(st.sampled_from([{}, {}, {"cache": False}]))}]
+        prog = ["list", [x, ["seq", [opt, ["task", third, {}, {}]]]] + items[:1]]
+    elif shape == "failed-twin":
+        # a failing call is handled; after it has been finalized an equivalent call is made from
+        # another parent job while the execution is still alive: it must get the twin's error
+        v = draw(st.integers(0, 2))
+        f = ["task", draw(st.sampled_from([["throw", "ValueError", f"e{v}"], ["op", "div", ["lit", ["int", v]], ["lit", ["int", 0]]],
+                                           ["task", ["throw", "KeyError", f"e{v}"], {}, {}]])), {}, {}]
+        prog = ["list", [["catch", f, ["Exception"], ["lit", ["int", -1]], {}],
+                         ["seq", [["task", ["lit", ["int", 5]], {}, {}], ["catch", ["task", f, {}, {}], ["Exception"], ["lit", ["int", -2]], {}]]]]
+                + items[:1]]
     elif shape == "let":
         prog = ["let", "s", pick(), ["list", [["var", "s"], ["var", "s"], items[0]]]]
     else:
@@ -196,18 +213,21 @@ def judge(case, kind, payload, ctl, probe, exp) -> None:
         from vf.core import HarnessError
 
         raise HarnessError("step budget exceeded")
+    # submissions that did NOT opt out, per call: at most one (an opted-out twin may run besides)
     per_key = collections.Counter()
-    optout = set()
+    optout = collections.Counter()
     for s in ctl.submissions:
-        per_key[s.key()] += 1
         scope = s.options.get("cache_scope", CacheScope.BACKEND)
         if CacheScope(scope) == CacheScope.NONE or s.options.get("prov", True) is False:
-            optout.add(s.key())
+            optout[s.key()] += 1
+        else:
+            per_key[s.key()] += 1
     for key, n in per_key.items():
-        if n > 1 and key not in optout:
+        if n > 1:
             names = [s.task_name for s in ctl.submissions if s.key() == key]
-            raise Violation("submitted-twice", f"call {names[0]} args_hash={key[1][:8]} handed to an executor {n} times in "
-                            f"one execution (completion order {ctl.completion_order})", case)
+            raise Violation("submitted-twice" + (":besides-an-opted-out-twin" if optout[key] else ""),
+                            f"call {names[0]} args_hash={key[1][:8]} handed to an executor {n} times in one execution, not "
+                            f"counting {optout[key]} opted-out twin(s) (completion order {ctl.completion_order})", case)
     for (parent, eh), n in probe.jobs_per_expr.items():
         if n > 1:
             raise Violation("expression-evaluated-twice", f"{n} jobs created for one expression (hash {eh[:8]}) under the same parent job", case)
@@ -270,7 +290,7 @@ def dfs_case(ctx: Ctx, case, cap: int) -> int:
 
 def check(ctx: Ctx) -> None:
     C.quiet_logs()
-    ctx.given(cases(), lambda c: run_case(ctx, c), ctx.n(150, 8000))
+    ctx.given(cases(), lambda c: run_case(ctx, c), ctx.n(220, 8000))
     # bounded exhaustive enumeration for a sample of programs
     import hypothesis
 
